@@ -21,6 +21,7 @@ import (
 
 var bwqType = reflect.TypeOf(types.BandwidthQuantity{})
 var newProxyType = reflect.TypeOf(msg.NewProxy{})
+var portsRangesType = reflect.TypeOf([]types.PortsRange{})
 var v1PkgPath = reflect.TypeOf(v1.ProxyBaseConfig{}).PkgPath()
 
 func isRecord(t reflect.Type) bool {
@@ -33,9 +34,31 @@ func coqOf(v reflect.Value) string {
 		q := v.Addr().Interface().(*types.BandwidthQuantity)
 		return "(mk_bwq " + hx.HxS(q.String()) + " " + hx.Z(q.Bytes()) + ")"
 	}
+	if t == portsRangesType {
+		items := []string{}
+		for i := 0; i < v.Len(); i++ {
+			r := v.Index(i).Interface().(types.PortsRange)
+			items = append(items, fmt.Sprintf("(mk_ports_range %s %s %s)", hx.Z(int64(r.Start)), hx.Z(int64(r.End)), hx.Z(int64(r.Single))))
+		}
+		return hx.List(items)
+	}
 	switch t.Kind() {
+	case reflect.Ptr:
+		if t.Elem().Kind() == reflect.Bool && t.Elem().Name() == "bool" {
+			if v.IsNil() {
+				return "None"
+			}
+			return "(Some " + hx.Bool(v.Elem().Bool()) + ")"
+		}
+		if isRecord(t.Elem()) {
+			if v.IsNil() {
+				return "None"
+			}
+			return "(Some " + coqOf(v.Elem()) + ")"
+		}
 	case reflect.String:
-		if t.Name() == "string" {
+		// plain strings and the named string types of package v1 (AuthMethod, AuthScope, ...)
+		if t.Name() == "string" || t.PkgPath() == v1PkgPath {
 			return hx.HxS(v.String())
 		}
 	case reflect.Int, reflect.Int64:
@@ -47,6 +70,18 @@ func coqOf(v reflect.Value) string {
 			return hx.Bool(v.Bool())
 		}
 	case reflect.Map:
+		if t.Key().Kind() == reflect.String && t.Elem().Kind() == reflect.Bool && t.Name() == "" {
+			keys := []string{}
+			for _, k := range v.MapKeys() {
+				keys = append(keys, k.String())
+			}
+			sort.Strings(keys)
+			items := []string{}
+			for _, k := range keys {
+				items = append(items, "("+hx.HxS(k)+", "+hx.Bool(v.MapIndex(reflect.ValueOf(k)).Bool())+")")
+			}
+			return hx.List(items)
+		}
 		if t.Key().Kind() == reflect.String && t.Elem().Kind() == reflect.String && t.Name() == "" {
 			keys := []string{}
 			for _, k := range v.MapKeys() {
@@ -60,7 +95,7 @@ func coqOf(v reflect.Value) string {
 			return hx.List(items)
 		}
 	case reflect.Slice:
-		if t.Name() == "" && t.Elem().Kind() == reflect.String && t.Elem().Name() == "string" {
+		if t.Name() == "" && t.Elem().Kind() == reflect.String && (t.Elem().Name() == "string" || t.Elem().PkgPath() == v1PkgPath) {
 			items := []string{}
 			for i := 0; i < v.Len(); i++ {
 				items = append(items, hx.HxS(v.Index(i).String()))
